@@ -193,3 +193,59 @@ def json_text_ok(v):
 
 IDS = [None, "", 0, -1, 1, 1.5, -0.0, 0.0, "a", "id-1", "0", True, False, [], [1], {}, {"a": 1},
        2 ** 53, "é", [None], {"id": None}]
+
+
+# ---------------------------------------------------------------------------
+# the same data held in subclasses of the built-in containers (lists, tuples and dicts by isinstance)
+
+import collections as _collections
+
+
+class ListSub(list):
+    """A user subclass of list"""
+
+
+class DictSub(dict):
+    """A user subclass of dict"""
+
+
+class TupleSub(tuple):
+    """A user subclass of tuple"""
+
+
+_NT_CACHE = {}
+
+
+def _namedtuple(n):
+    if n not in _NT_CACHE:
+        _NT_CACHE[n] = _collections.namedtuple("NT%d" % n, ["f%d" % i for i in range(n)])
+    return _NT_CACHE[n]
+
+
+def subclassed(rng, x, p=0.5):
+    """x with each list/tuple/dict replaced, with probability p, by an equal instance of a subclass."""
+    if isinstance(x, (list, tuple)):
+        items = [subclassed(rng, v, p) for v in x]
+        if rng.random() >= p:
+            return type(x)(items) if type(x) in (list, tuple) else items
+        k = rng.randrange(4)
+        if k == 0:
+            return ListSub(items)
+        if k == 1:
+            return TupleSub(items)
+        if k == 2 and len(items) <= 6:
+            return _namedtuple(len(items))(*items)
+        return tuple(items)
+    if isinstance(x, dict):
+        items = [(k, subclassed(rng, v, p)) for k, v in x.items()]
+        if rng.random() >= p:
+            return dict(items)
+        k = rng.randrange(3)
+        if k == 0:
+            return _collections.OrderedDict(items)
+        if k == 1:
+            d = _collections.defaultdict(list)
+            d.update(items)
+            return d
+        return DictSub(items)
+    return x
